@@ -408,6 +408,51 @@ def replay(pid, path):
     log = {}
     V.prepare(log)
     ops = r.get("ops") or []
+    kind = r.get("kind")
+    if kind == "schedule" and r.get("scenario"):
+        import sched
+        sc = r["scenario"]
+        impl, _ = sched.run_impl([sched.harness_scenario(sc)], pid + "replay")
+        ok, detail = sched.check_scenario(sc, impl[0]) if impl else (False, {"why": "no result"})
+        print(json.dumps(impl[0] if impl else {}, indent=1)[:6000])
+        print("schedule %s: %s" % (sc["name"], "explained by a sequential order / expectations met" if ok else detail.get("why")))
+        if not ok:
+            print("VIOLATION property=%s replay=%s" % (pid, path))
+        return 0 if ok else 1
+    if kind == "shutdown" and r.get("scenario"):
+        import shutdown
+        res = shutdown.run_one(r["scenario"])
+        print(json.dumps(res, indent=1)[:6000])
+        if res["verdict"] != "ok":
+            print("VIOLATION property=%s replay=%s" % (pid, path))
+        return 0 if res["verdict"] == "ok" else 1
+    if kind == "crash" and "kill_at_point" in r:
+        import crash
+        os.makedirs(V.WORK, exist_ok=True)
+        ops_path = os.path.join(V.WORK, "crash_replay.ops")
+        obs_path = os.path.join(V.WORK, "crash_replay_obs.ops")
+        with open(ops_path, "w") as f:
+            f.write("\n".join(ops) + "\n")
+        obs = crash.observe_lines()
+        with open(obs_path, "w") as f:
+            f.write("\n".join(obs) + "\n")
+        d = os.path.join(V.WORK, "crashdir_replay")
+        acks, uuid1, _, where, rc = crash.run_child(ops_path, d, "crashreplay", r["kill_at_point"])
+        a = len(acks)
+        bad = True
+        for mode in ("reopen", "open"):
+            uuid2, collids, seen, err = crash.run_reopen(obs_path, d, "crashreplay", mode)
+            good = seen == crash.model_after(ops[:a], obs) or (a < len(ops) and seen == crash.model_after(ops[:a + 1], obs))
+            print("killed at point %d (%s) after %d acknowledged lines; reopened with %s: %s" % (r["kill_at_point"], where, a, mode, "consistent" if good else "INCONSISTENT"))
+            bad = bad and not good
+            if not good:
+                break
+        shutil_rm = __import__("shutil").rmtree
+        shutil_rm(d, ignore_errors=True)
+        if not good:
+            print("VIOLATION property=%s replay=%s" % (pid, path))
+            return 1
+        return 0
     if not ops:
         print("replay names proof obligations that no longer check:", r.get("no_longer_checks"))
         o, d, broken, _ = V.check_proofs(pid, PROPS[pid]["modules"], log)
